@@ -10,7 +10,8 @@
      killed turn:     nothing (no store call, no version change, no snapshot, no t4/apply record)     *)
 EXTENDS Integers, Sequences, FiniteSets, TLC, Json
 
-CONSTANTS Deltas, NTurns, Start, Cadence, Bust, Namespaces, AllNamespaces
+CONSTANTS Deltas, NTurns, Start, Cadence, Bust, Namespaces, AllNamespaces,
+          Reports      \* shapes of what a successful store call returns: counts | none | empty | edits_none
 
 VARIABLES turn, version, applied, snaps, h
 vars == <<turn, version, applied, snaps, h>>
@@ -19,11 +20,11 @@ SortedSeq(S) == CHOOSE s \in [1..Cardinality(S) -> S] : \A i, j \in 1..Cardinali
 
 Init == /\ turn = Start /\ version = 0 /\ applied = [d \in Deltas |-> 0] /\ snaps = {} /\ h = <<>>
 
-Killed == /\ h' = Append(h, [turn |-> turn, kill |-> TRUE, approved |-> <<>>, batch_fails |-> FALSE, single_fails |-> {},
+Killed == /\ h' = Append(h, [turn |-> turn, kill |-> TRUE, approved |-> <<>>, batch_fails |-> FALSE, single_fails |-> {}, report |-> "counts",
                               calls |-> <<>>, version |-> version, snapshot |-> FALSE, invalidated |-> 0, records |-> FALSE])
           /\ turn' = turn + 1 /\ UNCHANGED <<version, applied, snaps>>
 
-Committed(A, bf, sf) ==
+Committed(A, bf, sf, rep) ==
     LET seq == SortedSeq(A)
         batch == <<[kind |-> "batch", ids |-> seq, ok |-> ~bf]>>
         singles == IF bf THEN [i \in 1..Len(seq) |-> [kind |-> "single", ids |-> <<seq[i]>>, ok |-> seq[i] \notin sf]] ELSE <<>>
@@ -33,15 +34,15 @@ Committed(A, bf, sf) ==
     IN /\ applied' = [d \in Deltas |-> applied[d] + (IF d \in okset THEN 1 ELSE 0)]
        /\ version' = version + 1
        /\ snaps' = IF snap THEN snaps \cup {turn} ELSE snaps
-       /\ h' = Append(h, [turn |-> turn, kill |-> FALSE, approved |-> seq, batch_fails |-> bf, single_fails |-> sf,
+       /\ h' = Append(h, [turn |-> turn, kill |-> FALSE, approved |-> seq, batch_fails |-> bf, single_fails |-> sf, report |-> rep,
                           calls |-> batch \o singles, version |-> version + 1, snapshot |-> snap,
                           invalidated |-> inval, records |-> TRUE])
        /\ turn' = turn + 1
 
 Next == /\ Len(h) < NTurns
         /\ \/ Killed
-           \/ \E A \in SUBSET Deltas : Committed(A, FALSE, {})
-           \/ \E A \in SUBSET Deltas : \E sf \in SUBSET A : Committed(A, TRUE, sf)
+           \/ \E A \in SUBSET Deltas, rep \in Reports : Committed(A, FALSE, {}, rep)
+           \/ \E A \in SUBSET Deltas, rep \in Reports : \E sf \in SUBSET A : Committed(A, TRUE, sf, rep)
 Spec == Init /\ [][Next]_vars
 
 -----------------------------------------------------------------------------
